@@ -252,4 +252,4 @@ class ConditionalVerboseRule(BaseLintRule):
         if "# thailint: ignore" not in line_text:
             return False
         after_ignore = line_text.split("# thailint: ignore")[1].split("#")[0]
-        return "[" not in after_ignore
+        return "[" not in after_ignore and not after_ignore.startswith("-")
